@@ -129,6 +129,24 @@ pub fn lockstep(emu: &mut Emu, prog: &Prog, opts: &LsOpts, ctl: &mut dyn FnMut(&
     emu.set_pc(prog.pc);
     let _ = emu.drain_msgs();
     emu.clear_write_log();
+    // the loader's record of `___exit` concerns the run loop only; stepping a program must not depend on it. It
+    // points at something inside the program's image (a routine entry, a handler, the middle of the code), at the
+    // start, or nowhere.
+    {
+        let n: usize = prog.image.iter().map(|(_, b)| b.len()).sum();
+        let h = prog.pc.wrapping_mul(0x9e37_79b9) ^ prog.er[1].rotate_left(9) ^ (n as u32) << 3;
+        let h = h ^ (h >> 14);
+        emu.cpu.exit_addr = match h % 4 {
+            0 => 0,
+            1 => prog.pc,
+            _ if prog.image.is_empty() => 0,
+            _ => {
+                // an even address inside one of the image's pieces
+                let (a, b) = &prog.image[(h >> 4) as usize % prog.image.len().max(1)];
+                a.wrapping_add(((h >> 12) as usize % b.len().max(1)) as u32) & !1
+            }
+        };
+    }
 
     let mut touched: BTreeSet<u32> = pre.map.keys().copied().collect();
     let mut extra_patched: BTreeSet<u32> = BTreeSet::new();
